@@ -32,11 +32,12 @@ def run(ctx, mod, path):
         impl = core.run_cases(hb, lines, tag="rp")
         model = core.run_cases(db, lines, extra_args=list(flags), tag="rpm") if db else [""] * len(lines)
         for (c, e), i, m in zip(lst, impl, model):
-            same = "AGREE" if i == m else "DIFFER"
+            nomodel = m.startswith("MODEL-UNKNOWN-OP")      # implementation-only predicate suites have no model side
+            same = "NO-MODEL" if nomodel else ("AGREE" if i == m else "DIFFER")
             print("  [%s/%s] %s\n     impl : %s\n     model: %s\n     recorded impl: %s ; what: %s" %
                   (cfg, same, c[:400], i[:400], m[:400], str(e.get("impl"))[:200], e.get("what", "")))
             # still failing = the implementation still differs from the model on this input, or still gives the
             # output that was recorded as the property violation
-            if i != m or (e.get("what") and i == e.get("impl")):
+            if (i != m and not nomodel) or (e.get("what") and i == e.get("impl")):
                 rc = 1
     return rc
